@@ -26,7 +26,9 @@ PoolSeq == <<
   \* complex coefficients whose sign can be extracted
   B("mul", TComplex(TInt(-1), TInt(2)), x), B("mul", TComplex(TInt(0), TInt(-3)), B("pow", x, TInt(2))),
   B("mul", TComplex(TRat(-1, 2), TRat(1, 3)), B("mul", x, y)), B("mul", TComplex(TInt(1), TInt(-2)), x),
-  TComplex(TInt(-2), TInt(1)), TComplex(TInt(0), TInt(-1)), B("sub", y, x), B("sub", TInt(-1), x) >>
+  TComplex(TInt(-2), TInt(1)), TComplex(TInt(0), TInt(-1)), B("sub", y, x), B("sub", TInt(-1), x),
+  \* an unevaluated power of zero
+  B("pow", TInt(0), y) >>
 N == Len(PoolSeq)
 Bin == {"add", "sub", "mul", "div", "pow", "atan2", "beta", "log2", "kronecker_delta", "polygamma", "lowergamma", "uppergamma"}
 Un == {"neg", "sqrt", "cbrt", "exp", "log", "sin", "cos", "tan", "cot", "sec", "csc", "asin", "acos", "atan", "acot", "asec", "acsc",
